@@ -395,3 +395,27 @@ CLAIMS["C18"] = (
     "6/C18", TRUSTED + ", AddressSanitizer/UBSan (thorough tier); 'all byte strings' is approximated by exhaustive "
     "short token strings, not by coverage-guided fuzzing",
     "TLA+ stateless-parser contract + exhaustive token strings + TLC trace validation (+ sanitizers)")
+
+CLAIMS["C19"] = (
+    "model_checking",
+    "TLC enumerates expressions of every kind the dumper knows (27 numbers incl. multi-limb integers, signed zeros, "
+    "infinite and NaN doubles; symbols, the empty name, constants; arithmetic; 43 one-argument and 9 two-argument "
+    "functions; undefined functions; relationals and logic; 17 sets; derivatives, Subs, piecewise) alone, in triples "
+    "and nested, and expressions holding one object in several places; TLC validates that loads(dumps(e)) has the "
+    "identical structural dump (doubles bit for bit through their bit fields), is eq, has the same node count and no "
+    "more distinct objects than e (sharing restored), and that a DenseMatrix of the expressions round-trips",
+    "6/C19", TRUSTED + "; types whose dumps raises NotImplementedError / SerializationError are not decisive; Dummy "
+    "symbols have no recipe and are not generated",
+    "TLA+ generated universe + TLC trace validation of the round trip")
+CLAIMS["C20"] = (
+    "model_checking",
+    "TLC enumerates structured mutations (8 replacement values, 8 xor masks, truncation, duplication of a suffix) at "
+    "byte positions 0..200 (every third; thorough: every position to 260) of the serialized form of 21 base "
+    "expressions of all archive shapes; each mutated string is loaded and the result printed, hashed and compared; "
+    "TLC validates that every outcome is a usable expression or an exception of the library / archive layer and that "
+    "no canonical-form assertion fired; crashes and hangs end the harness and are attributed to the case; the "
+    "thorough tier replays on an ASan+UBSan build",
+    "6/C20", TRUSTED + ", AddressSanitizer/UBSan (thorough tier); allocations are capped (address-space limit, "
+    "sanitizer allocation limit) because corrupted length fields make the archive layer request gigabytes; "
+    "'any byte string' is approximated by structured mutations of valid archives, not by coverage-guided fuzzing",
+    "TLA+ generated mutation grid + outcome contract + TLC trace validation (+ sanitizers)")
